@@ -1138,6 +1138,15 @@ class Engine:
         args = [self.eval_operand_text(st, fr, a) for a in argtxts]
         argtys = [self.type_of_operand(fr, a) for a in argtxts]
         callee = self._subst(fr, callee)
+        # blanket impls on references: `<&T as PartialOrd>::lt(&&a, &&b)` forwards to `<T as PartialOrd>::lt(&a, &b)`
+        rm = re.match(r"^<&(?:mut )?(.+?) as ((?:core::cmp::|std::cmp::)?(?:PartialOrd|PartialEq|Ord)(?:<.*>)?)>::(\w+)$", callee)
+        while rm:
+            inner = rm.group(1)
+            tr = re.sub(r"<&(?:mut )?(.*)>$", r"<\1>", rm.group(2))
+            callee = f"<{inner} as {tr}>::{rm.group(3)}"
+            args = [self.load_loc(st, (a.uid, a.local, a.path)) if isinstance(a, Ref) else a for a in args]
+            argtys = [re.sub(r"^&(?:mut )?", "", t) if t else t for t in argtys]
+            rm = re.match(r"^<&(?:mut )?(.+?) as ((?:core::cmp::|std::cmp::)?(?:PartialOrd|PartialEq|Ord)(?:<.*>)?)>::(\w+)$", callee)
         dest_loc = self.resolve(st, fr, dest) if dest else None
         dest_ty = self.type_of_place(fr, dest) if dest else None
         self.called.add(callee)
